@@ -118,6 +118,29 @@ func (e *Engine) aliasPlans(fn *ssa.Function, c *Contract) []aliasPlan {
 						}
 					}
 				}
+				skip := false
+				for _, grp := range c.NoAlias {
+					in := map[string]bool{}
+					for _, n := range grp {
+						in[n] = true
+					}
+					repOf := func(i int) int {
+						if r, ok := np.rep[i]; ok {
+							return r
+						}
+						return i
+					}
+					for a := range fn.Params {
+						for b := range fn.Params {
+							if a < b && in[fn.Params[a].Name()] && in[fn.Params[b].Name()] && repOf(a) == repOf(b) {
+								skip = true
+							}
+						}
+					}
+				}
+				if skip {
+					continue
+				}
 				np.label = base.label
 				if len(lab) > 0 {
 					if np.label != "" {
@@ -137,6 +160,7 @@ type splitCase struct {
 	label   string
 	lens    map[string]int64 // param name -> fixed length
 	assume  []string         // extra assumptions (spec text)
+	noPrune bool
 }
 
 var splitRe = regexp.MustCompile(`^len\((\w+)\)\s+in\s+(\d+)\.\.(\d+)(\s+else)?$`)
@@ -145,6 +169,34 @@ func (e *Engine) splitCases(c *Contract) []splitCase {
 	cases := []splitCase{{lens: map[string]int64{}}}
 	for _, sp := range c.Splits {
 		if strings.HasPrefix(sp.Text, "case ") {
+			continue
+		}
+		if strings.HasPrefix(sp.Text, "cond ") {
+			// two variants: the condition over entry values holds / does not hold
+			cond := strings.TrimSpace(strings.TrimPrefix(sp.Text, "cond "))
+			var next []splitCase
+			for _, base := range cases {
+				for _, pos := range []bool{true, false} {
+					nc := splitCase{label: base.label, lens: map[string]int64{}}
+					for k, v := range base.lens {
+						nc.lens[k] = v
+					}
+					txt := cond
+					lab := cond
+					if !pos {
+						txt = "!(" + cond + ")"
+						lab = "!(" + cond + ")"
+					}
+					if nc.label != "" {
+						nc.label += ","
+					}
+					nc.label += lab
+					nc.assume = append(append([]string{}, base.assume...), txt)
+					nc.noPrune = true
+					next = append(next, nc)
+				}
+			}
+			cases = next
 			continue
 		}
 		m := splitRe.FindStringSubmatch(strings.TrimSpace(sp.Text))
@@ -320,7 +372,7 @@ func (e *Engine) verifyVariant(fn *ssa.Function, c *Contract, plan aliasPlan, sc
 	if os.Getenv("VCGO_DEBUG") != "" {
 		fmt.Fprintf(os.Stderr, "[verify] %s [%s]\n", e.curFunc, e.variant)
 	}
-	st := &State{mem: e.gmem.clone(), hypKeys: map[string]bool{}, subst: map[string]*Term{}, names: map[string]Value{}, cuts: map[string]bool{}, weak: map[string]bool{}, visits: map[*ssa.BasicBlock]int{}, inLoop: map[*ssa.BasicBlock]bool{}, ghost: map[string]Value{}}
+	st := &State{mem: e.gmem.clone(), hypKeys: map[string]bool{}, subst: map[string]*Term{}, names: map[string]Value{}, cuts: map[string]bool{}, weak: map[string]bool{}, visits: map[*ssa.BasicBlock]int{}, binds: map[string]int{}, lastBind: map[string]ssa.Value{}, inLoop: map[*ssa.BasicBlock]bool{}, ghost: map[string]Value{}}
 	args := make([]Value, len(fn.Params))
 	params := map[string]Value{}
 	for i, p := range fn.Params {
@@ -394,7 +446,7 @@ func (e *Engine) verifyVariant(fn *ssa.Function, c *Contract, plan aliasPlan, sc
 			}
 		}()
 	}
-	e.eagerPrune = len(sc.assume) > 0
+	e.eagerPrune = len(sc.assume) > 0 && !sc.noPrune
 	defer func() { e.eagerPrune = false }()
 	st.entryH = len(st.hyps)
 	old := st.fork()
@@ -422,14 +474,18 @@ func (e *Engine) verifyVariant(fn *ssa.Function, c *Contract, plan aliasPlan, sc
 			e.guarded(ex.st, func() []Exit { e.checkPanic(ex, fr, fn, c, args, params, old); return nil })
 		}
 	}
-	for _, ex := range exits {
-		if ex.kind == "return" {
-			for _, a := range c.Asserts {
-				if !ex.st.cuts[a.Name] {
-					e.errors = append(e.errors, fmt.Sprintf("%s [%s]: cut %s was never reached", e.curFunc, e.variant, a.Name))
+	for _, a := range c.Asserts {
+		reached, anyRet := false, false
+		for _, ex := range exits {
+			if ex.kind == "return" {
+				anyRet = true
+				if ex.st.cuts[a.Name] {
+					reached = true
 				}
 			}
-			break
+		}
+		if anyRet && !reached {
+			e.errors = append(e.errors, fmt.Sprintf("%s [%s]: cut %s was never reached", e.curFunc, e.variant, a.Name))
 		}
 	}
 	if nret > 0 {
@@ -714,7 +770,7 @@ func (e *Engine) findGlobal(pkgPath, name string) *ssa.Global {
 // (ground evaluation by the engine's own SSA interpreter; calls are inlined, contracts unused).
 func (e *Engine) initGlobals(order []*ssa.Package) error {
 	e.gmem = &Memory{cells: map[string]Value{}}
-	st := &State{mem: e.gmem, hypKeys: map[string]bool{}, subst: map[string]*Term{}, names: map[string]Value{}, cuts: map[string]bool{}, weak: map[string]bool{}, visits: map[*ssa.BasicBlock]int{}, inLoop: map[*ssa.BasicBlock]bool{}, ghost: map[string]Value{}}
+	st := &State{mem: e.gmem, hypKeys: map[string]bool{}, subst: map[string]*Term{}, names: map[string]Value{}, cuts: map[string]bool{}, weak: map[string]bool{}, visits: map[*ssa.BasicBlock]int{}, binds: map[string]int{}, lastBind: map[string]ssa.Value{}, inLoop: map[*ssa.BasicBlock]bool{}, ghost: map[string]Value{}}
 	e.concrete = true
 	defer func() { e.concrete = false }()
 	for _, p := range order {
